@@ -173,7 +173,7 @@ def check(spec, ctx):
         raise Violation("CHARACTERIZE:wrong-type", "%s.characterize returned %s for %r; accepting "
                         "candidates: %s" % (base.__name__, type(ent).__name__, b.seq,
                                             [c.__name__ for c in accepting]))
-    if ent.record is not record or not ent.is_valid():
+    if str(ent.record.seq) != str(record.seq) or not ent.is_valid():
         raise Violation("CHARACTERIZE:entity", "returned entity does not wrap the record or is not valid")
     ctx.note(spec, True, ["characterize:found", "base:" + spec["base"]])
 
